@@ -3,6 +3,7 @@ package props
 import (
 	"fmt"
 	"go/ast"
+	"go/constant"
 	"go/token"
 	"go/types"
 	"golang.org/x/tools/go/ssa"
@@ -263,62 +264,42 @@ type dispatcher struct {
 }
 
 func findDispatchers(c *core.Ctx, byNamed map[*types.TypeName]*c10type) []*dispatcher {
+	// a dispatcher is an exported package-level function func(..., []byte, ...) (PDU-interface, error) whose SSA paths
+	// return freshly allocated PDU types of the package under equality tests of one value against command constants. The
+	// table id -> type is read off those paths (unexported helpers inlined), whatever the syntactic form: a switch that
+	// assigns new(T), a helper that returns new(T), an if-chain, nested tests.
 	var out []*dispatcher
 	for _, pkg := range c.Prog.Pkgs {
 		for _, f := range pkg.Syntax {
 			for _, d := range f.Decls {
 				fd, ok := d.(*ast.FuncDecl)
-				if !ok || fd.Body == nil || fd.Recv != nil {
+				if !ok || fd.Body == nil || fd.Recv != nil || !fd.Name.IsExported() {
 					continue
 				}
-				disp := &dispatcher{decl: fd, pkg: load.Rel(pkg.PkgPath), cases: map[uint64]*types.TypeName{}}
-				ast.Inspect(fd.Body, func(n ast.Node) bool {
-					sw, ok := n.(*ast.SwitchStmt)
-					if !ok {
-						return true
+				fobj, _ := pkg.TypesInfo.Defs[fd.Name].(*types.Func)
+				if fobj == nil {
+					continue
+				}
+				sig := fobj.Type().(*types.Signature)
+				if sig.Results().Len() != 2 || !isErrorType(sig.Results().At(1).Type()) {
+					continue
+				}
+				if _, isIface := sig.Results().At(0).Type().Underlying().(*types.Interface); !isIface {
+					continue
+				}
+				hasBytes := false
+				for i := 0; i < sig.Params().Len(); i++ {
+					if isByteSliceT(sig.Params().At(i).Type()) {
+						hasBytes = true
 					}
-					for _, cc := range sw.Body.List {
-						cl := cc.(*ast.CaseClause)
-						for _, s := range cl.Body {
-							as, ok := s.(*ast.AssignStmt)
-							if !ok || len(as.Rhs) != 1 || len(as.Lhs) != 1 {
-								continue
-							}
-							call, ok := as.Rhs[0].(*ast.CallExpr)
-							if !ok {
-								continue
-							}
-							var tn *types.TypeName
-							if id, ok := call.Fun.(*ast.Ident); ok && id.Name == "new" && len(call.Args) == 1 {
-								if nt, ok := pkg.TypesInfo.TypeOf(call.Args[0]).(*types.Named); ok {
-									tn = nt.Obj()
-								}
-							}
-							if tn == nil || byNamed[tn] == nil {
-								continue
-							}
-							if lid, ok := as.Lhs[0].(*ast.Ident); ok {
-								disp.pduVar = pkg.TypesInfo.Uses[lid]
-							}
-							disp.sw = sw
-							for _, le := range cl.List {
-								if tv := pkg.TypesInfo.Types[le]; tv.Value != nil {
-									if v, ok := constantUint(tv); ok {
-										if prev, dup := disp.cases[v]; dup && prev != tn {
-											disp.cases[v] = nil
-										} else {
-											disp.cases[v] = tn
-										}
-									}
-								}
-							}
-						}
-					}
-					return true
-				})
-				if disp.sw != nil {
-					disp.fn, _ = pkg.TypesInfo.Defs[fd.Name].(*types.Func)
-					evaluateDispatcher(c, disp, pkg.TypesInfo, byNamed)
+				}
+				fn := c.Prog.SSAFunc(fobj)
+				if !hasBytes || fn == nil {
+					continue
+				}
+				disp := &dispatcher{decl: fd, fn: fobj, pkg: load.Rel(pkg.PkgPath), cases: map[uint64]*types.TypeName{}}
+				ssaDispatchTable(c, fn, disp, byNamed)
+				if len(disp.cases) > 0 {
 					out = append(out, disp)
 				}
 			}
@@ -327,68 +308,138 @@ func findDispatchers(c *core.Ctx, byNamed map[*types.TypeName]*c10type) []*dispa
 	return out
 }
 
-// evaluateDispatcher recomputes the id -> type table by abstractly executing the dispatcher once per candidate id
-// (every constant compared with the command field anywhere in the function, plus every id of the package's PDU types).
-func evaluateDispatcher(c *core.Ctx, d *dispatcher, info *types.Info, byNamed map[*types.TypeName]*c10type) {
-	root, chain, ok := rootedChain(info, d.sw.Tag)
-	if !ok {
-		return // keep the syntactic table
+func ssaDispatchTable(c *core.Ctx, fn *ssa.Function, d *dispatcher, byNamed map[*types.TypeName]*c10type) {
+	inline := func(call *ssa.Call, callee *ssa.Function) bool {
+		return callee.Pkg == fn.Pkg && callee.Object() != nil && !callee.Object().Exported() && len(callee.Blocks) > 0
 	}
-	cands := map[uint64]bool{}
-	for k := range d.cases {
-		cands[k] = true
-	}
-	ast.Inspect(d.decl.Body, func(n ast.Node) bool {
-		switch x := n.(type) {
-		case *ast.CaseClause:
-			for _, e := range x.List {
-				if v, ok := constantUint(info.Types[e]); ok {
-					cands[v] = true
-				}
+	decide := func(w *paths.Walker, cond ssa.Value) int {
+		// a second test of the same value against a constant is decided by what the path already established
+		if bo, ok := cond.(*ssa.BinOp); ok && (bo.Op == token.EQL || bo.Op == token.NEQ) {
+			x, y := bo.X, bo.Y
+			if _, isK := x.(*ssa.Const); isK {
+				x, y = y, x
 			}
-		case *ast.BinaryExpr:
-			for _, e := range []ast.Expr{x.X, x.Y} {
-				if tv := info.Types[e]; tv.Value != nil {
-					if v, ok := constantUint(tv); ok && v > 0 {
-						cands[v] = true
+			if k, isK := y.(*ssa.Const); isK && k.Value != nil && k.Value.Kind() == constant.Int {
+				xr := role(plain, w.Resolve(x))
+				for _, e := range w.Events() {
+					if e.Kind != paths.EvBranch {
+						continue
+					}
+					pb, ok := e.Cond.(*ssa.BinOp)
+					if !ok || (pb.Op != token.EQL && pb.Op != token.NEQ) {
+						continue
+					}
+					px, py := pb.X, pb.Y
+					if _, isK := px.(*ssa.Const); isK {
+						px, py = py, px
+					}
+					pk, isK := py.(*ssa.Const)
+					if !isK || pk.Value == nil || pk.Value.Kind() != constant.Int || role(e, e.Resolve(px)) != xr {
+						continue
+					}
+					wasEq := (pb.Op == token.EQL) == e.Taken
+					same := pk.Value.ExactString() == k.Value.ExactString()
+					var truth int // of `x == k`
+					switch {
+					case wasEq && same:
+						truth = 1
+					case wasEq && !same:
+						truth = -1
+					case !wasEq && same:
+						truth = -1
+					}
+					if truth != 0 {
+						if bo.Op == token.NEQ {
+							truth = -truth
+						}
+						return truth
 					}
 				}
 			}
 		}
-		return true
-	})
-	for _, t := range byNamed {
-		if t.Rel == d.pkg {
-			for _, id := range t.IDs {
-				cands[uint64(id)] = true
+		subj, neq, ok := nilTest(cond)
+		if !ok {
+			return 0
+		}
+		switch v := w.Resolve(subj).(type) {
+		case *ssa.Const:
+			if v.IsNil() {
+				if neq {
+					return -1
+				}
+				return 1
+			}
+		case *ssa.MakeInterface:
+			if neq {
+				return 1
+			}
+			return -1
+		}
+		return 0
+	}
+	ps, err := paths.Enumerate(fn, paths.Config{Inline: inline, MaxDepth: 2, Decide: decide})
+	if err != nil {
+		return
+	}
+	var tag ssa.Value
+	for _, p := range ps {
+		if p.Aborted != "" || len(p.Results) != 2 {
+			continue
+		}
+		res := func(v ssa.Value) ssa.Value { return v }
+		if n := len(p.Events); n > 0 {
+			res = p.Events[n-1].Resolve
+		}
+		mi, ok := res(p.Results[0]).(*ssa.MakeInterface)
+		if !ok {
+			continue
+		}
+		pt, ok := mi.X.Type().(*types.Pointer)
+		if !ok {
+			continue
+		}
+		nt, ok := pt.Elem().(*types.Named)
+		if !ok || byNamed[nt.Obj()] == nil {
+			continue
+		}
+		taken := 0
+		for _, e := range p.Events {
+			if e.Kind != paths.EvBranch {
+				continue
+			}
+			bo, ok := e.Cond.(*ssa.BinOp)
+			if !ok || (bo.Op != token.EQL && bo.Op != token.NEQ) || (bo.Op == token.EQL) != e.Taken {
+				continue
+			}
+			x, y := bo.X, bo.Y
+			if _, isK := x.(*ssa.Const); isK {
+				x, y = y, x
+			}
+			k, isK := y.(*ssa.Const)
+			if !isK || k.Value == nil || k.Value.Kind() != constant.Int {
+				continue
+			}
+			var K uint64
+			if _, err := fmt.Sscan(k.Value.ExactString(), &K); err != nil {
+				continue
+			}
+			xv := e.Resolve(x)
+			if tag == nil {
+				tag = xv
+			} else if role(e, xv) != role(e, tag) {
+				d.undecided = append(d.undecided, fmt.Sprintf("%#x is tested on %s, other ids on %s", K, role(e, xv), role(e, tag)))
+				continue
+			}
+			taken++
+			if prev, dup := d.cases[K]; dup && prev != nt.Obj() {
+				d.cases[K] = nil
+			} else {
+				d.cases[K] = nt.Obj()
 			}
 		}
-	}
-	table := map[uint64]*types.TypeName{}
-	d.undecided = nil
-	for K := range cands {
-		k := K
-		x := &symExec{prog: c.Prog, K: &k, tagRoot: root, tagChain: chain, assumeNoError: true}
-		v := x.run(d.fn, nil)
-		switch {
-		case v.kind == sStruct && v.ptr:
-			if nt, ok := v.typ.(*types.Named); ok && byNamed[nt.Obj()] != nil {
-				table[K] = nt.Obj()
-			}
-		case v.kind == sNil:
-			// unsupported
-		default:
-			d.undecided = append(d.undecided, fmt.Sprintf("%#x: %s %s", K, v.String(), x.undecided))
+		if taken == 0 {
+			d.undecided = append(d.undecided, "PDU type "+nt.Obj().Name()+" is returned on a path without a command-id test")
 		}
-	}
-	// an id that appears nowhere must be answered without a PDU
-	probe := uint64(0x7ffffff1)
-	x := &symExec{prog: c.Prog, K: &probe, tagRoot: root, tagChain: chain, assumeNoError: true}
-	if v := x.run(d.fn, nil); v.kind != sNil {
-		d.undecided = append(d.undecided, "an unknown command id is not answered with a nil PDU: "+v.String())
-	}
-	if len(d.undecided) == 0 {
-		d.cases = table
 	}
 }
 
@@ -422,7 +473,7 @@ func dispatchRule(c *core.Ctx, all []*c10type, byNamed map[*types.TypeName]*c10t
 		for _, K := range labels {
 			tn := d.cases[K]
 			key := fmt.Sprintf("%s#case%#x", name, K)
-			pos := c.Prog.Pos(d.sw.Pos())
+			pos := c.Prog.Pos(d.decl.Pos())
 			if tn == nil {
 				c.Fail("C10-CMD", key, pos, "the same command id is mapped to two PDU types")
 				continue
@@ -468,78 +519,154 @@ func dispatchRule(c *core.Ctx, all []*c10type, byNamed map[*types.TypeName]*c10t
 
 // dispatchShape: no (nil, nil) return; the no-match path returns ErrUnsupportedPacket; the success return is guarded.
 func dispatchShape(c *core.Ctx, d *dispatcher, name string) {
-	pkg := c.Prog.ByPath[d.fn.Pkg().Path()]
-	info := pkg.TypesInfo
-	var unsupported types.Object
-	if root := c.Prog.Pkg(""); root != nil {
-		unsupported = root.Types.Scope().Lookup("ErrUnsupportedPacket")
-	}
+	// decided on the SSA paths of the dispatcher (unexported helpers inlined), so that it does not matter whether unknown
+	// ids are refused by `if pdu == nil` after the switch, by a default clause, or inside a helper that builds the PDU
+	fn := c.Prog.SSAFunc(d.fn)
 	pos := c.Prog.Pos(d.decl.Pos())
-	bad := ""
-	nilGuardSeen, unsupportedReturned, sawSwitch := false, false, false
-	for _, s := range d.decl.Body.List {
-		if s == ast.Stmt(d.sw) {
-			sawSwitch = true
-			for _, cc := range d.sw.Body.List {
-				if cc.(*ast.CaseClause).List == nil {
-					bad = "the command switch has a default clause (unknown ids must fall through to the 'unsupported' error)"
+	if fn == nil {
+		c.Broken("C10-DISPATCH", name, "no SSA body")
+		return
+	}
+	inline := func(call *ssa.Call, callee *ssa.Function) bool {
+		return callee.Pkg == fn.Pkg && callee.Object() != nil && !callee.Object().Exported() && len(callee.Blocks) > 0
+	}
+	decide := func(w *paths.Walker, cond ssa.Value) int {
+		// a second test of the same value against a constant is decided by what the path already established
+		if bo, ok := cond.(*ssa.BinOp); ok && (bo.Op == token.EQL || bo.Op == token.NEQ) {
+			x, y := bo.X, bo.Y
+			if _, isK := x.(*ssa.Const); isK {
+				x, y = y, x
+			}
+			if k, isK := y.(*ssa.Const); isK && k.Value != nil && k.Value.Kind() == constant.Int {
+				xr := role(plain, w.Resolve(x))
+				for _, e := range w.Events() {
+					if e.Kind != paths.EvBranch {
+						continue
+					}
+					pb, ok := e.Cond.(*ssa.BinOp)
+					if !ok || (pb.Op != token.EQL && pb.Op != token.NEQ) {
+						continue
+					}
+					px, py := pb.X, pb.Y
+					if _, isK := px.(*ssa.Const); isK {
+						px, py = py, px
+					}
+					pk, isK := py.(*ssa.Const)
+					if !isK || pk.Value == nil || pk.Value.Kind() != constant.Int || role(e, e.Resolve(px)) != xr {
+						continue
+					}
+					wasEq := (pb.Op == token.EQL) == e.Taken
+					same := pk.Value.ExactString() == k.Value.ExactString()
+					var truth int // of `x == k`
+					switch {
+					case wasEq && same:
+						truth = 1
+					case wasEq && !same:
+						truth = -1
+					case !wasEq && same:
+						truth = -1
+					}
+					if truth != 0 {
+						if bo.Op == token.NEQ {
+							truth = -truth
+						}
+						return truth
+					}
 				}
 			}
+		}
+		subj, neq, ok := nilTest(cond)
+		if !ok {
+			return 0
+		}
+		switch v := w.Resolve(subj).(type) {
+		case *ssa.Const:
+			if v.IsNil() {
+				if neq {
+					return -1
+				}
+				return 1
+			}
+		case *ssa.MakeInterface:
+			if neq {
+				return 1
+			}
+			return -1
+		}
+		return 0
+	}
+	ps, err := paths.Enumerate(fn, paths.Config{Inline: inline, MaxDepth: 2, Decide: decide})
+	if err != nil {
+		c.Unknown("C10-DISPATCH", name, pos, "path enumeration failed: "+err.Error())
+		return
+	}
+	isUnsupported := func(v ssa.Value) bool {
+		u, ok := v.(*ssa.UnOp)
+		if !ok {
+			return false
+		}
+		g, ok := u.X.(*ssa.Global)
+		return ok && g.Name() == "ErrUnsupportedPacket"
+	}
+	var problems []string
+	nPDU, nUnsupported := 0, 0
+	for _, p := range ps {
+		if p.Aborted != "" {
+			problems = append(problems, "path not analysable: "+p.Aborted)
 			continue
 		}
-		ast.Inspect(s, func(n ast.Node) bool {
-			if _, ok := n.(*ast.FuncLit); ok {
-				return false
+		if len(p.Results) != 2 {
+			continue
+		}
+		r0, r1 := p.Results[0], p.Results[1]
+		res := func(v ssa.Value) ssa.Value { return v }
+		if n := len(p.Events); n > 0 {
+			res = p.Events[n-1].Resolve
+		}
+		r0, r1 = res(r0), res(r1)
+		pduNil := paths.IsNilConst(r0)
+		errNil := paths.IsNilConst(r1)
+		switch {
+		case pduNil && errNil:
+			problems = append(problems, "a path returns a nil PDU with a nil error")
+		case !pduNil && !errNil:
+			problems = append(problems, "a path returns a PDU together with a non-nil error")
+		case !pduNil:
+			if _, ok := r0.(*ssa.MakeInterface); !ok {
+				problems = append(problems, "a path returns a PDU value that is not a freshly built PDU ("+role(plain, r0)+"): an unknown command id may yield a nil PDU with a nil error")
+				continue
 			}
-			ifs, ok := n.(*ast.IfStmt)
-			if ok && sawSwitch {
-				if be, ok := ifs.Cond.(*ast.BinaryExpr); ok && be.Op == token.EQL {
-					if id, ok := be.X.(*ast.Ident); ok && info.Uses[id] == d.pduVar && info.Types[be.Y].IsNil() {
-						// body must return (nil, ErrUnsupportedPacket)
-						if len(ifs.Body.List) == 1 {
-							if rs, ok := ifs.Body.List[0].(*ast.ReturnStmt); ok && len(rs.Results) == 2 && info.Types[rs.Results[0]].IsNil() {
-								nilGuardSeen = true
-								var obj types.Object
-								switch e := rs.Results[1].(type) {
-								case *ast.SelectorExpr:
-									obj = info.Uses[e.Sel]
-								case *ast.Ident:
-									obj = info.Uses[e]
-								}
-								if obj != nil && obj == unsupported {
-									unsupportedReturned = true
-								}
-							}
+			nPDU++
+			// the PDU returned was decoded and the decode error tested nil
+			decoded := false
+			for _, e := range p.Events {
+				if e.Kind == paths.EvBranch {
+					if subj, neq, ok := nilTest(e.Cond); ok && neq != e.Taken {
+						if call, isC := e.Resolve(subj).(*ssa.Call); isC && call.Call.IsInvoke() && call.Call.Method.Name() == "IDecode" {
+							decoded = true
 						}
 					}
 				}
 			}
-			rs, ok := n.(*ast.ReturnStmt)
-			if !ok || len(rs.Results) != 2 {
-				return true
+			if !decoded {
+				problems = append(problems, "a PDU is returned without IDecode having succeeded on that path")
 			}
-			first, second := rs.Results[0], rs.Results[1]
-			if info.Types[first].IsNil() && info.Types[second].IsNil() {
-				bad = "return of a nil PDU with a nil error at " + c.Prog.Pos(rs.Pos())
+		default:
+			if isUnsupported(r1) {
+				nUnsupported++
 			}
-			if id, ok := first.(*ast.Ident); ok && info.Uses[id] == d.pduVar {
-				if !nilGuardSeen || !sawSwitch {
-					bad = "the PDU is returned without a preceding `pdu == nil` guard at " + c.Prog.Pos(rs.Pos())
-				}
-				if !info.Types[second].IsNil() {
-					bad = "a PDU is returned together with a non-nil error at " + c.Prog.Pos(rs.Pos())
-				}
-			}
-			return true
-		})
+		}
 	}
-	switch {
-	case bad != "":
-		c.Fail("C10-DISPATCH", name, pos, bad)
-	case !nilGuardSeen || !unsupportedReturned:
-		c.Fail("C10-DISPATCH", name, pos, "no `if pdu == nil { return nil, ErrUnsupportedPacket }` after the command switch")
-	default:
-		c.OK("C10-DISPATCH", name, pos, fmt.Sprintf("%d case labels; unknown ids -> ErrUnsupportedPacket; no (nil,nil) return", len(d.cases)))
+	if nUnsupported == 0 {
+		problems = append(problems, "no path returns ErrUnsupportedPacket: unknown command ids are not refused")
+	}
+	if nPDU == 0 {
+		problems = append(problems, "no path returns a PDU")
+	}
+	if len(problems) > 0 {
+		c.Fail("C10-DISPATCH", name, pos, strings.Join(dedup(problems), "; "))
+	} else {
+		c.OK("C10-DISPATCH", name, pos, fmt.Sprintf("%d paths: %d return a decoded PDU with a nil error, unknown ids -> ErrUnsupportedPacket, no (nil,nil) return", len(ps), nPDU))
 	}
 }
 
